@@ -6,6 +6,8 @@
 import Lean.Data.Json
 import BumpverVerif.Model.Basic
 import BumpverVerif.Model.LexId
+import BumpverVerif.Model.Vcs
+import BumpverVerif.Gen.VcsTemplates
 open Lean BV
 
 def jstr (s : Str) : Json := Json.str (String.ofList s)
@@ -14,6 +16,39 @@ def getStr (j : Json) (k : String) : Except String Str :=
   match j.getObjVal? k with
   | .ok (Json.str s) => .ok s.toList
   | _ => .error s!"missing string field {k}"
+
+def getBool (j : Json) (k : String) : Except String Bool :=
+  match j.getObjVal? k with
+  | .ok (Json.bool b) => .ok b
+  | _ => .error s!"missing bool field {k}"
+
+def getNat (j : Json) (k : String) : Except String Nat :=
+  match j.getObjVal? k with
+  | .ok (Json.num n) => .ok n.mantissa.toNat
+  | _ => .error s!"missing nat field {k}"
+
+def getStrList (j : Json) (k : String) : Except String (List Str) :=
+  match j.getObjVal? k with
+  | .ok (Json.arr a) => a.toList.mapM (fun x => match x with
+      | Json.str s => .ok s.toList
+      | _ => .error s!"non-string in {k}")
+  | _ => .error s!"missing list field {k}"
+
+/-- an object of string values as an association list -/
+def getKw (j : Json) (k : String) : Except String (List (Str × Str)) :=
+  match j.getObjVal? k with
+  | .ok (Json.obj o) => o.toList.mapM (fun (kk, v) => match v with
+      | Json.str s => .ok (kk.toList, s.toList)
+      | _ => .error s!"non-string value in {k}")
+  | _ => .error s!"missing object field {k}"
+
+def okList (l : List Str) : Json := Json.mkObj [("ok", Json.arr (l.map jstr).toArray)]
+def unsupported : Json := Json.mkObj [("unsupported", Json.num 1)]
+
+def fmtErrJson : FmtErr → Json
+  | .keyError => Json.mkObj [("err", Json.str "KeyError")]
+  | .valueError => Json.mkObj [("err", Json.str "ValueError")]
+  | .unsupported => unsupported
 
 def okStr (s : Str) : Json := Json.mkObj [("ok", jstr s)]
 def errStr (e : String) : Json := Json.mkObj [("err", Json.str e)]
@@ -27,6 +62,34 @@ def handle (j : Json) : Except String Json := do
   | "bumpbid" =>
     let s ← getStr j "s"
     pure (match bumpBid s with | some r => okStr r | none => errStr "OverflowError")
+  | "argv" =>
+    let vcs ← getStr j "vcs"
+    let cmd ← getStr j "cmd"
+    let kw ← getKw j "kw"
+    match (lookup vcs Gen.vcsTemplates).bind (lookup cmd) with
+    | none => pure (Json.mkObj [("err", Json.str "KeyError")])
+    | some tmpl => pure (match argv tmpl kw with
+      | .ok l => okList l
+      | .error (.fmt e) => fmtErrJson e
+      | .error .shlex => Json.mkObj [("err", Json.str "ValueError")])
+  | "fmt" =>
+    let t ← getStr j "tmpl"
+    let kw ← getKw j "kw"
+    pure (match pyFormat kw t with | .ok r => okStr r | .error e => fmtErrJson e)
+  | "shlex" =>
+    let t ← getStr j "s"
+    pure (match shlexSplit t with | some l => okList l | none => Json.mkObj [("err", Json.str "ValueError")])
+  | "submsg" =>
+    let m ← getStr j "m"
+    pure (if m.any (fun c => c.toNat ≥ 128) then unsupported else okStr (subMsgTemplate m))
+  | "dirty" =>
+    let t ← getStr j "status"
+    let files ← getStrList j "files"
+    let allow ← getBool j "allow"
+    pure (match assertNotDirty (pySplitlines t) files allow with
+      | .proceed => okStr "proceed".toList
+      | .abort => okStr "abort".toList
+      | .crash => errStr "ValueError")
   | o => .error s!"unknown op {o}"
 
 partial def loop (hin hout : IO.FS.Stream) : IO Unit := do
